@@ -29,6 +29,8 @@ type genCfg struct {
 	IllTyped   bool    // assignments over every (current type, assigned type, operator)
 	VisitLine  bool    // node bodies start with a line rendering visited()/visited_count()
 	RichExpr   bool    // deeper expression trees with probes
+	OptConds   bool    // most options carry a condition, many of them reading no variable (visit functions, host functions)
+	Markup     float64 // probability that a line carries a literal inside a markup wrapper (text must not change)
 	JumpFaults float64 // probability that a jump fails (unknown node, non-string destination, failing expression)
 	CountJumps bool    // node titles N0..N2 and jumps whose destination is computed from a visit count
 	Storer     string
@@ -38,7 +40,10 @@ var families = map[string]genCfg{
 	"flow": {Family: "flow", MaxNodes: 3, MaxDepth: 3, MaxStmts: 4, Opts: 3, Ifs: 2, Sets: 2, Jumps: 1.5, Stops: 0.7, Lines: 3,
 		Cmds: 0.7, Calls: 0.5, VisitLine: true, Storer: "recording"},
 	"flowbig": {Family: "flowbig", MaxNodes: 5, MaxDepth: 4, MaxStmts: 5, Opts: 3, Ifs: 2.5, Sets: 2, Jumps: 1.5, Stops: 0.5, Lines: 3,
-		Cmds: 0.7, Calls: 0.5, VisitLine: true, Storer: "recording"},
+		Cmds: 0.7, Calls: 0.5, VisitLine: true, Markup: 0.25, Storer: "recording"},
+	// lines with markup wrappers in most lines (the markup parser runs for every line of every runner)
+	"markupy": {Family: "markupy", MaxNodes: 2, MaxDepth: 2, MaxStmts: 4, Opts: 1.5, Ifs: 1, Sets: 1, Jumps: 0.8, Stops: 0.2, Lines: 5,
+		Calls: 0.3, Markup: 0.8, Storer: "recording"},
 	"cmds": {Family: "cmds", MaxNodes: 2, MaxDepth: 2, MaxStmts: 4, Opts: 1.5, Ifs: 0.5, Sets: 1, Jumps: 0.7, Stops: 0.3, Lines: 2,
 		Cmds: 4, Calls: 0.3, PendCmds: true, FailCmds: true, Storer: "recording"},
 	"vars": {Family: "vars", MaxNodes: 1, MaxDepth: 1, MaxStmts: 7, Sets: 6, Lines: 2, Ifs: 0.3, IllTyped: true, Storer: "recording"},
@@ -49,6 +54,9 @@ var families = map[string]genCfg{
 		Cmds: 1.5, Calls: 1, Faults: 0.2, FailCmds: true, Storer: "recording"},
 	"visits": {Family: "visits", MaxNodes: 3, MaxDepth: 2, MaxStmts: 3, Opts: 2, Ifs: 1.5, Sets: 0.5, Jumps: 4, Stops: 0.3, Lines: 1.5,
 		VisitLine: true, JumpFaults: 0.12, CountJumps: true, Storer: "recording"},
+	// hub nodes presented again and again: the same option group's conditions must be evaluated at every presentation
+	"optcond": {Family: "optcond", MaxNodes: 3, MaxDepth: 2, MaxStmts: 3, Opts: 5, Ifs: 0.5, Sets: 1, Jumps: 3, Stops: 0.2, Lines: 1.5,
+		VisitLine: true, CountJumps: true, OptConds: true, Storer: "recording"},
 	"snap": {Family: "snap", MaxNodes: 3, MaxDepth: 2, MaxStmts: 4, Opts: 2, Ifs: 1, Sets: 3, Jumps: 2.5, Stops: 0.3, Lines: 2,
 		Cmds: 1.5, PendCmds: true, VisitLine: true, Storer: "recording"},
 }
@@ -156,6 +164,15 @@ func genCase(rnd *rand.Rand, cfg genCfg, id int) *Case {
 	}
 	for i := 0; i < nn; i++ {
 		var stmts []Stmt
+		if i > 0 && rnd.Intn(8) == 0 {
+			// a node that yields nothing: empty, or assignments only; it cannot jump, so it cannot be part
+			// of a cycle without a yield (entering it ends the dialogue)
+			for k := rnd.Intn(3); k > 0; k-- {
+				stmts = append(stmts, g.setStmt())
+			}
+			c.Nodes[i].Body = c.addBody(stmts)
+			continue
+		}
 		stmts = append(stmts, g.headLine(i))
 		if i == 0 {
 			stmts = append(stmts, g.initVars()...)
@@ -258,8 +275,13 @@ func (g *gen) expr(t string, depth int) *Expr {
 		case 6:
 			return eBin("mod", g.expr("n", depth-1), []*Expr{eNum(2, 1), eNum(3, 1), eNum(3, 2), eNeg(eNum(2, 1)), eNum(5, 4)}[r.Intn(5)])
 		case 7:
-			if r.Intn(3) == 0 {
+			switch r.Intn(4) {
+			case 0:
 				return eCall("cint", eNum(r.Intn(7), 1))
+			case 1:
+				// the numeric built-ins, on dyadic arguments of both signs (halves included)
+				fn := []string{"floor", "ceil", "round", "inc", "dec", "integer", "decimal"}[r.Intn(7)]
+				return eCall(fn, g.expr("n", depth-1))
 			}
 			return eCall("p1", g.expr("n", depth-1))
 		default:
@@ -386,6 +408,17 @@ func (g *gen) lineStmt() Stmt {
 	}
 	if r.Intn(4) == 0 {
 		parts = append(parts, Part{Lit: " end."})
+	}
+	if g.cfg.Markup > 0 && r.Float64() < g.cfg.Markup {
+		wrap := []string{"b", "bp", "nomarkup", "nomarkupall", "sc", "nomarkup"}[r.Intn(6)]
+		lit := []string{"word", "two words", "x"}[r.Intn(3)]
+		if wrap == "nomarkup" || wrap == "nomarkupall" {
+			lit = []string{"raw [b] text", "[not a marker]", "plain"}[r.Intn(3)] // kept verbatim, brackets included
+		}
+		parts = append(parts, Part{Lit: " "}, Part{Lit: lit, Wrap: wrap})
+		if r.Intn(2) == 0 {
+			parts = append(parts, Part{Lit: " tail"})
+		}
 	}
 	st := Stmt{K: "line", Text: parts}
 	for i := r.Intn(3); i > 0 && r.Intn(2) == 0; i-- {
@@ -525,6 +558,19 @@ func (g *gen) stmts(depth int, node int) []Stmt {
 				}
 				if r.Intn(3) == 0 {
 					o.Cond = g.expr("b", g.exprDepth())
+				}
+				if g.cfg.OptConds && r.Intn(4) > 0 {
+					t := g.titles[r.Intn(len(g.titles))]
+					o.Cond = []*Expr{
+						eCall("visited", eStr(t)),
+						eNot(eCall("visited", eStr(t))),
+						eBin("gt", eCall("visited_count", eStr(t)), eNum(r.Intn(3), 1)),
+						eBin("eq", eBin("mod", eCall("visited_count", eStr(t)), eNum(2, 1)), eNum(0, 1)),
+						eCall("cbool", eCall("visited", eStr(t))),
+						eBin("lt", g.varOf("n"), eNum(2, 1)),
+						eBin("and", eCall("visited", eStr(t)), g.varOf("b")),
+						eBool(r.Intn(2) == 0),
+					}[r.Intn(8)]
 				}
 				if r.Intn(4) == 0 {
 					o.Tags = []string{fmt.Sprintf("o%d", r.Intn(4))}
